@@ -75,6 +75,11 @@ func NewThrowEventSatisfier(catchEventElement schema.ThrowEventInterface, eventD
 func (satisfier *ThrowEventSatisfier) Satisfy(ev event.IEvent) (matched bool, chain int) {
 	chain = EventDidNotMatch
 	for i := range satisfier.eventDefinitionInstances {
+		// a definition whose instance could not be built (e.g. a timer
+		// definition without date, cycle or duration) can never be matched
+		if satisfier.eventDefinitionInstances[i] == nil {
+			continue
+		}
 		if ev.MatchesEventInstance(satisfier.eventDefinitionInstances[i]) {
 			if satisfier.len == 1 {
 				chain = 0
